@@ -2,6 +2,7 @@ package main
 
 import (
 	"fmt"
+	"os"
 	"go/ast"
 	"go/constant"
 	"go/token"
@@ -48,6 +49,7 @@ type MapIter struct {
 	Str  bool
 	StrV Term
 	Pos  string
+	Region string
 }
 type Closure struct {
 	Fn       *ssa.Function
@@ -84,6 +86,8 @@ type Oblig struct {
 	Lemma   *Lemma
 	result  *SolveResult
 	KF      string // known-finding exclusion applied
+	OwnProps bool  // Props was given explicitly for this obligation
+	Quick    bool  // expected to fail (known finding listed): short first attempt
 	ExtraAs []string
 }
 
@@ -109,6 +113,8 @@ type FnCtx struct {
 	baseSort    map[string]string
 	entry       *State
 	modset      map[string][]Term
+	modpred     map[string][]string
+	strict      map[string][]strictLoc // heap array -> locations that must never be written (with the properties that demand it)
 	modAll      map[string]bool
 	modEvery    bool
 	unsup       []string
@@ -122,19 +128,61 @@ type FnCtx struct {
 	assumes     []string
 	inlineDepth int
 	usedGlobals []*ssa.Global
+	allocAt     map[string]string
 	nGlobalInv  int
 }
 
 type CVal struct {
 	T   Term
-	GoT types.Type
+	GoT types.Type // for map-typed values possibly a *regType carrying the region
+}
+
+// regType wraps a map type together with the region (see regions.go) of the value it types.
+type regType struct {
+	types.Type
+	reg string
+}
+
+func withReg(t types.Type, reg string) types.Type {
+	if reg == "" || t == nil {
+		return t
+	}
+	if rt, ok := t.(*regType); ok {
+		t = rt.Type
+	}
+	return &regType{t, reg}
+}
+
+func regOfT(t types.Type) string {
+	if rt, ok := t.(*regType); ok {
+		return rt.reg
+	}
+	return ""
+}
+
+func unwrapT(t types.Type) types.Type {
+	if rt, ok := t.(*regType); ok {
+		return rt.Type
+	}
+	return t
 }
 
 func (fc *FnCtx) fresh(prefix, sortName string) Term {
 	fc.nfresh++
 	name := fmt.Sprintf("%s!%d", sanitize(prefix), fc.nfresh)
 	fc.declare(name, sortName)
+	fc.nilMapEmpty(prefix, name, sortName)
 	return Term{name, sortName}
+}
+
+// nilMapEmpty: in every unconstrained version of a map-domain array the nil map (reference 0) is
+// empty; versions derived by stores keep that because no store goes through reference 0.
+func (fc *FnCtx) nilMapEmpty(prefix, name, sortName string) {
+	if !strings.HasPrefix(prefix, "MD$") || !strings.HasPrefix(sortName, "(Array Int (Array ") {
+		return
+	}
+	ks := sortArgs(sortArgs(sortName)[1])[0]
+	fc.fact(fmt.Sprintf("(forall ((k %s)) (! (not (select (select %s 0) k)) :pattern ((select (select %s 0) k))))", ks, name, name))
 }
 
 func (fc *FnCtx) declare(name, sortName string) {
@@ -159,9 +207,23 @@ func (fc *FnCtx) define(prefix string, t Term) Term {
 	if len(t.S) < 24 && !strings.Contains(t.S, " ") {
 		return t
 	}
-	n := fc.fresh(prefix, t.Sort)
-	fc.fact(fmt.Sprintf("(= %s %s)", n.S, t.S))
-	return n
+	fc.nfresh++
+	name := fmt.Sprintf("%s!%d", sanitize(prefix), fc.nfresh)
+	fc.declSet[name] = true
+	fc.decls = append(fc.decls, fmt.Sprintf("(define-fun %s () %s %s)", name, t.Sort, t.S))
+	return Term{name, t.Sort}
+}
+
+// iteChain: value selected by the first condition that holds (last alternative is the default).
+func iteChain(conds []string, vals []string) string {
+	if len(vals) == 1 {
+		return vals[0]
+	}
+	out := vals[len(vals)-1]
+	for i := len(vals) - 2; i >= 0; i-- {
+		out = fmt.Sprintf("(ite %s %s %s)", conds[i], vals[i], out)
+	}
+	return out
 }
 
 func (fc *FnCtx) unsupported(f string, a ...interface{}) {
@@ -174,10 +236,11 @@ func (fc *FnCtx) oblig(kind, name string, goal string, reach string, pos token.P
 	if n := fc.counter[name]; n > 1 {
 		full = fmt.Sprintf("%s#%d", name, n-1)
 	}
+	own := props != nil
 	if props == nil {
 		props = fc.props
 	}
-	o := &Oblig{Name: fc.short + "/" + full, Kind: kind, Props: props, Goal: goal, Reach: reach, NFacts: len(fc.facts), Fc: fc, Inputs: fc.inputs}
+	o := &Oblig{Name: fc.short + "/" + full, Kind: kind, Props: props, Goal: goal, Reach: reach, NFacts: len(fc.facts), Fc: fc, Inputs: fc.inputs, OwnProps: own}
 	if pos.IsValid() {
 		o.Pos = fc.e.fset.Position(pos)
 	}
@@ -197,12 +260,16 @@ func (fc *FnCtx) heapGet(st *State, name, sortName string) Term {
 		if !ok {
 			b = Term{name + "@0", sortName}
 			fc.declare(b.S, sortName)
+			fc.nilMapEmpty(name, b.S, sortName)
 			fc.base[name] = b
 			fc.baseSort[name] = sortName
 		}
 		t = b
 	} else {
 		nm := fmt.Sprintf("%s@e%d", name, st.epoch)
+		if !fc.declSet[nm] {
+			fc.nilMapEmpty(name, nm, sortName)
+		}
 		fc.declare(nm, sortName)
 		t = Term{nm, sortName}
 	}
@@ -211,7 +278,37 @@ func (fc *FnCtx) heapGet(st *State, name, sortName string) Term {
 }
 
 func (fc *FnCtx) heapSet(st *State, name string, v Term) {
-	st.heap[name] = fc.define(name, v)
+	nv := fc.define(name, v)
+	st.heap[name] = nv
+	fc.noteVersion(st, nv)
+}
+
+// noteVersion remembers which allocation state was current when a heap array version came into
+// being: every reference stored in that version is allocated in that state (or nil).
+func (fc *FnCtx) noteVersion(st *State, arrTerm Term) {
+	if fc.allocAt == nil {
+		fc.allocAt = map[string]string{}
+	}
+	if _, ok := fc.allocAt[arrTerm.S]; ok {
+		return
+	}
+	if al, ok := st.heap["Alloc"]; ok {
+		fc.allocAt[arrTerm.S] = al.S
+	}
+}
+
+// assumeAllocatedFrom: v was read from heap array version arrTerm.
+func (fc *FnCtx) assumeAllocatedFrom(st *State, r Term, arrTerm Term) {
+	al, ok := fc.allocAt[arrTerm.S]
+	if !ok {
+		if strings.HasSuffix(arrTerm.S, "@0") {
+			al = fc.heapGet(&State{heap: map[string]Term{}}, "Alloc", arr(SInt, SBool)).S
+		} else {
+			fc.assumeAllocated(st, r)
+			return
+		}
+	}
+	fc.fact(fmt.Sprintf("(or (= %s 0) (and (> %s 0) (select %s %s)))", r.S, r.S, al, r.S))
 }
 
 func fieldArrName(structT types.Type, field string) string {
@@ -248,9 +345,12 @@ func or(xs ...string) string {
 func not(x string) string   { return "(not " + x + ")" }
 func eq(a, b string) string { return "(= " + a + " " + b + ")" }
 
-func (fc *FnCtx) mapArrs(mt *types.Map) (dom, val, ks, vs string) {
+func (fc *FnCtx) mapArrs(mt *types.Map, region string) (dom, val, ks, vs string) {
 	ks, vs = fc.e.sortOf(mt.Key()), fc.e.sortOf(mt.Elem())
-	n := sanitize(ks) + "$" + sanitize(vs)
+	if region == "" {
+		region = fc.e.regionDefault(mt)
+	}
+	n := sanitize(ks) + "$" + sanitize(vs) + "$" + region
 	return "MD$" + n, "MV$" + n, ks, vs
 }
 
@@ -361,7 +461,19 @@ func (fr *frame) findLoops() {
 		return
 	}
 	stmts := loopStmts(fn)
+	// bind innermost loops first; a loop that contains other loops is bound to the innermost
+	// statement that strictly contains the statements of all its inner loops.
+	var order []*loopInfo
 	for _, li := range fr.loops {
+		order = append(order, li)
+	}
+	sort.Slice(order, func(i, j int) bool {
+		if len(order[i].blocks) != len(order[j].blocks) {
+			return len(order[i].blocks) < len(order[j].blocks)
+		}
+		return order[i].header.Index < order[j].header.Index
+	})
+	for _, li := range order {
 		lo, hi := token.Pos(0), token.Pos(0)
 		for b := range li.blocks {
 			for _, in := range b.Instrs {
@@ -383,18 +495,41 @@ func (fr *frame) findLoops() {
 				}
 			}
 		}
+		// statements of loops nested inside this one
+		var inner []ast.Node
+		for _, other := range order {
+			if other == li || other.node == nil || len(other.blocks) >= len(li.blocks) {
+				continue
+			}
+			if li.blocks[other.header] {
+				inner = append(inner, other.node)
+			}
+		}
 		li.ordinal = -1
 		best := -1
 		for i, s := range stmts {
-			if s.Pos() <= lo && hi <= s.End() {
-				if best < 0 || (stmts[best].Pos() <= s.Pos() && s.End() <= stmts[best].End()) {
-					best = i
+			if !(s.Pos() <= lo && hi <= s.End()) {
+				continue
+			}
+			ok := true
+			for _, in := range inner {
+				if !(s.Pos() <= in.Pos() && in.End() <= s.End() && s != in) {
+					ok = false
 				}
+			}
+			if !ok {
+				continue
+			}
+			if best < 0 || (stmts[best].Pos() <= s.Pos() && s.End() <= stmts[best].End()) {
+				best = i
 			}
 		}
 		if best >= 0 {
 			li.ordinal = best
 			li.node = stmts[best]
+		}
+		if os.Getenv("GOWP_DEBUG_LOOPS") != "" {
+			fmt.Fprintf(os.Stderr, "loop header b%d of %s: lo=%v hi=%v -> ordinal %d\n", li.header.Index, fn.Name(), fr.fc.e.fset.Position(lo), fr.fc.e.fset.Position(hi), li.ordinal)
 		}
 	}
 	// disambiguate loops mapped to the same statement (should not happen); fall back to header order
@@ -464,9 +599,11 @@ func (fr *frame) run(start *State, startReach string) {
 		if st == nil {
 			continue
 		}
-		rname := fr.fc.fresh("reach_b"+strconv.Itoa(b.Index), SBool)
-		fr.fc.fact(eq(rname.S, reach))
-		fr.reach[b] = rname.S
+		if strings.Contains(reach, " ") {
+			fr.reach[b] = fr.fc.define("reach_b"+strconv.Itoa(b.Index), Term{reach, SBool}).S
+		} else {
+			fr.reach[b] = reach
+		}
 		if li := fr.loops[b]; li != nil {
 			st = fr.loopHeader(li, b, st)
 		} else {
@@ -538,11 +675,11 @@ func (fr *frame) mergePreds(b *ssa.BasicBlock) (*State, string) {
 			st.heap[k] = first
 			continue
 		}
-		j := fc.fresh(k+"_j", names[k])
+		var vs []string
 		for _, i := range ins {
-			fc.factIf(i.cond, eq(j.S, i.st.heap[k].S))
+			vs = append(vs, i.st.heap[k].S)
 		}
-		st.heap[k] = j
+		st.heap[k] = fc.define(k+"_j", Term{iteChain(conds, vs), names[k]})
 	}
 	return st, or(conds...)
 }
@@ -564,19 +701,21 @@ func (fr *frame) phis(b *ssa.BasicBlock, havoc map[*ssa.Phi]Term) {
 			fc.unsupported("phi of tuple")
 			continue
 		}
-		v := fc.fresh("phi_"+phi.Name(), sortName)
-		any := false
+		var cs, vs []string
 		for i, p := range b.Preds {
 			c, ok := fr.edges[[2]int{p.Index, b.Index}]
 			if !ok || fr.isBackEdge(p, b) {
 				continue
 			}
 			ev := fr.term(phi.Edges[i])
-			fc.factIf(c, eq(v.S, ev.S))
-			any = true
+			cs = append(cs, c)
+			vs = append(vs, ev.S)
 		}
-		_ = any
-		fr.vals[phi] = v
+		if len(vs) == 0 {
+			fr.vals[phi] = fc.fresh("phi_"+phi.Name(), sortName)
+			continue
+		}
+		fr.vals[phi] = fc.define("phi_"+phi.Name(), Term{iteChain(cs, vs), sortName})
 	}
 }
 
@@ -613,7 +752,7 @@ func (fr *frame) execBlock(b *ssa.BasicBlock, st *State) {
 			for _, r := range i.Results {
 				vals = append(vals, fr.val(r))
 			}
-			fr.doReturn(b, st, vals, i.Pos())
+			fr.doReturn(b, st, vals, i.Results, i.Pos())
 			fr.out[b] = st
 			return
 		case *ssa.Panic:
@@ -639,7 +778,7 @@ func (fr *frame) backEdges(b *ssa.BasicBlock, st *State) {
 	}
 }
 
-func (fr *frame) doReturn(b *ssa.BasicBlock, st *State, vals []Val, pos token.Pos) {
+func (fr *frame) doReturn(b *ssa.BasicBlock, st *State, vals []Val, resVals []ssa.Value, pos token.Pos) {
 	fc := fr.fc
 	reach := fr.reach[b]
 	if !fr.top {
@@ -650,7 +789,7 @@ func (fr *frame) doReturn(b *ssa.BasicBlock, st *State, vals []Val, pos token.Po
 		return
 	}
 	env := fc.contractEnv(fc.c, fr.fn, nil, st, fr.old)
-	env.bindResults(fr.fn, vals, fr)
+	env.bindResults(fr.fn, vals, resVals, fr)
 	if len(fc.c.Ghostset) > 0 {
 		st = st.clone()
 		env.st = st
@@ -822,4 +961,10 @@ func (fc *FnCtx) globalVal(g *ssa.Global) Term {
 		fc.usedGlobals = append(fc.usedGlobals, g)
 	}
 	return Term{name, srt}
+}
+
+type strictLoc struct {
+	ref   Term
+	props []string
+	src   string
 }
